@@ -325,7 +325,7 @@ theorem uninterleaved_send (g : G) (i : Nat) (h : g.threads[i]? = some [{ pc := 
         -- rejected by the status gate, by closed admission, or by the closed channel: the
         -- message is handed back, nothing else changes
         { g.sh with nextId := g.sh.nextId + 1,
-                    rets := g.sh.rets ++ [⟨.send, g.sh.nextId, .sendErr, g.sh.word.closed, okIds g.sh.rets⟩] }
+                    rets := g.sh.rets ++ [⟨.send, g.sh.nextId, .sendErr g.sh.nextId, g.sh.word.closed, okIds g.sh.rets⟩] }
       else
         { g.sh with nextId := g.sh.nextId + 1,
                     queue := g.sh.queue ++ [.msg g.sh.nextId], enq := g.sh.enq ++ [.msg g.sh.nextId],
@@ -405,7 +405,7 @@ example : ⟨.send, 0, .ok, false, []⟩ ∈ (run (init [[.send [] false], [.sen
 /-- a send racing with the receiver's exit gets its message back -/
 example : (run (init [[.send [] false]])
     [.t 0, .t 0, .t 0, .t 0, .t 0, .t 0, .rxStop, .rxClose, .t 0, .t 0]).sh.rets
-      = [⟨.send, 0, .sendErr, false, []⟩] := by decide
+      = [⟨.send, 0, .sendErr 0, false, []⟩] := by decide
 
 /-! ### (d) in cluster builds: the type check and the boxing step (`Model/Boxing.lean`) -/
 
